@@ -9,7 +9,8 @@ from ..common import w, wl, wll, rd, rdl, rdll, close, fr
 
 from rpylib.distribution.sampling import SamplingMethod
 from rpylib.grid.spatial import CTMCUniformGrid
-from rpylib.model.levydrivensde.levydrivensde import LevyDrivenSDEModel, SDEFunction, Constant, DiagX
+from rpylib.model.levydrivensde.levydrivensde import (LevyDrivenSDEModel, SDEFunction, Constant, DiagX, LiborSDEFunction,
+                                                        ForwardMarketSDEFunction)
 from rpylib.model.levydrivensde.levyforwardmodel import LevyForwardModel
 from rpylib.model.levydrivensde.levylibormodel import LevyLiborModel
 from rpylib.model.utils import create_levy_forward_market_model, create_levy_forward_market_model_copula
@@ -23,23 +24,33 @@ from rpylib.product.product import Product
 from rpylib.product.underlying import Spot
 
 RULE = ("euler: real MarkovChainSDE / CouplingSDE (levels 1..3; the fine / coarse driver drift is checked against fresh chains on the level-l / level-(l-1) grid, asymmetric CGMY/HEM/Merton drivers included) objects on fixed-size grids (5..9 points, INVERSION or "
-        "BINARYSEARCHTREEADAPTED1D), drivers hem/merton/vg/cgmy (1-d) and 2-d Levy copulas (independent/Clayton), coefficient "
-        "Constant, DiagX, sigma(t)*x of the forward/Libor models (tenors inside and outside the horizon) and a harness-side "
+        "BINARYSEARCHTREEADAPTED1D), drivers hem/merton/vg/cgmy (1-d) and Levy copulas (d = 2 independent/Clayton through coupled levels 1..3, "
+        "d = 3 at level 1) with m = 1..5 states, coefficient "
+        "Constant, DiagX, sigma(t)*x of the forward/Libor models (tenors inside, outside and exactly at the horizon) and a harness-side "
         "affine coefficient (C + D x)(1 + e t) with affine sde drift; the driver path consumed is captured by wrapping the "
         "driver's simulate_one_path(_with_coupling) (stream 'real'), or prescribed as a dyadic path with 1..6 steps (stream "
-        "'scripted'). df: LevyForwardModel / LevyLiborModel with random non-negative rates (zeros included) and increasing "
-        "tenors, on a mesh through all tenors with T +- 2^-20, 2^-30. non-trivial = at least 2 driver steps / at least 2 "
+        "'scripted'). shape: Constant / DiagX / LiborSDEFunction / ForwardMarketSDEFunction objects (m = 1..4, d = 1..3, dyadic entries, Libor "
+        "times before / at / after tenors) called on the column state and on the stacked state exactly as the two schemes build them, "
+        "then multiplied with the driver column(s). df: LevyForwardModel / LevyLiborModel with random non-negative rates (zeros, all-zero "
+        "curves included) and increasing tenors with equal and strongly unequal accrual periods (1/64 .. 8 years), on a mesh through all "
+        "tenors with T +- 2^-20, 2^-30. non-trivial = at least 2 driver steps / at least 2 "
         "tenors; distinct = distinct (configuration, numpy seed or scripted path)")
 NOT_PROVED = ["the coupled driver path is an input of the theorems (its law is C03); the coefficient of the Libor model's sde drift "
               "(compute_drift_term, dblquad) is an input, only the scheme built on it is proved",
-              "NumPy broadcasting of a(t, zi) on the stacked (2,m,1) state is modelled as 'a applied to each component'; "
-              "compared on every coupled run, not proved",
-              "continuity of df is proved as: each branch is affine in t and adjacent branches agree at the tenor "
-              "(no epsilon-delta statement)",
+              "NumPy broadcasting of a(t, zi) on the stacked (2,m,1) state: proved from a model of the NumPy rules involved (broadcast *, np.diag, "
+              "@ on columns / stacks; Model/Sde.lean NArr) that Constant and sigma(t)*x commute with stacking and that DiagX does not "
+              "(constant_commutes_with_stacking, scale_commutes_with_stacking, diag_rejects_stacked_state, diag_on_column_state); the NumPy "
+              "rules themselves are compared with NumPy (probe c16.shape), sigma(t) is an input (ForwardMarketSDEFunction.sigma raises after "
+              "the first tenor, recorded) except for LiborSDEFunction, whose sigma(t) is modelled (liborSigma; libor_fixed_rate_frozen: a fixed rate "
+              "has no driver increment) and checked against its documentation; the harness-side affine coefficient is not one of the offered classes",
+              "continuity of df: the Lipschitz bound |df(s) - df(t)| <= max rate * |s - t| and the epsilon-delta statement are proved for the "
+              "executable model over the rationals (df_lipschitz_abs, df_continuous_eps_delta) and for the same curve over any linearly "
+              "ordered field, in particular the reals (Lemmas/C16Real.lean: dfCurveK, df_continuous_over_reals; dfCurveK_is_model ties the "
+              "generic curve to the executable one at Q); the correspondence with model.df is on float (rational) times only",
               "float rounding of the recursion (compared at 2^-40 of the sum of absolute increments)"]
-ASSUMPTIONS = ["tenors are sorted and non-negative (the constructor sorts them), rates are non-negative, times are in [0, last tenor]",
-               "the coefficient matrix of each offered SDEFunction is taken from its documented meaning (constant matrix, diag(x), "
-               "sigma(t)*x), not from the shape its __call__ returns"]
+ASSUMPTIONS = ["tenors are sorted and non-negative (the constructor sorts them; strictly increasing for df_at_tenor_is_product), rates are non-negative, times are in [0, last tenor]",
+               "the coefficient matrix of each offered SDEFunction used by the Euler oracle is taken from its documented meaning (constant matrix, "
+               "diag(x), sigma(t)*x); what its __call__ returns on the two state shapes is the subject of the shape probe / theorems"]
 TRUSTED = ["numpy matmul / cumsum / diff / searchsorted", "wrapping of bound methods from the harness to capture the driver path"]
 
 METHODS = {"INVERSION": SamplingMethod.INVERSION, "ADAPTED1D": SamplingMethod.BINARYSEARCHTREEADAPTED1D}
@@ -137,7 +148,7 @@ def lean_family(cd):
         return Z, [[1.0 if i == j else 0.0 for j in range(d)] for i in range(m)], 0.0, 0.0, 0.0
     if cd["kind"] == "affine":
         return cd["C"], cd["D"], cd["e"], cd["beta"], cd["gamma"]
-    if cd["kind"] == "forward" and cd["tenors"][0] > cd["maturity"]:
+    if cd["kind"] == "forward" and cd["tenors"][0] >= cd["maturity"]:     # a(t, .) is evaluated at times < maturity only
         return Z, cd["sigma"], 0.0, 0.0, 0.0            # sigma(t) = sigma before the first tenor; model.drift = 0
     return None
 
@@ -383,6 +394,7 @@ def probe_coupled(ctx, desc):
             ctx.count(probe, desc, nontrivial=True, branch=f"drift_mismatch:l{lvl}")
             return
     captured = []
+    driver_raised = []
     if desc.get("scripted"):
         sp = desc["scripted"]
         times, W, L = np.array(sp["times"], float), np.array(sp["W"], float), np.array(sp["L"], float)   # W, L: (2, d, n)
@@ -399,7 +411,11 @@ def probe_coupled(ctx, desc):
         orig = cp.driver_coupling_process.simulate_one_path_with_coupling
 
         def wrapped():
-            p = orig()
+            try:
+                p = orig()
+            except Exception:  # noqa
+                driver_raised.append(True)
+                raise
             captured.append(p)
             return p
         cp.driver_coupling_process.simulate_one_path_with_coupling = wrapped
@@ -411,6 +427,11 @@ def probe_coupled(ctx, desc):
             ctx.branches["c16.euler:after_an_earlier_path_on_the_same_object"] += 1
         out = cp.simulate_one_path_with_coupling()
     except Exception as e:  # noqa
+        if driver_raised:
+            # the coupled *driver* failed to produce a path (e.g. the 3-d inversion sampler drawing a state of zero mass, for which the
+            # coupling has no law): the statement is about the scheme on a driver path - the driver path is C03 / C15's subject
+            ctx.count(probe, desc, nontrivial=False, branch=f"driver_raised:d{d}:{type(e).__name__}")
+            return
         ctx.count(probe, desc, nontrivial=False, branch="raises:" + cd["kind"])
         ctx.fail("oracle", "c16.euler.raises", desc, {"what": "simulate_one_path_with_coupling raised", "error": f"{type(e).__name__}: {e}"[:300]}, cls=cls)
         return
@@ -449,6 +470,87 @@ def probe_coupled(ctx, desc):
             ctx.fail("corr", probe + ".model", desc, {"name": "Drivers/C16 pair vs CouplingSDE.simulate_one_path_with_coupling",
                                                        "impl": [x[:, :k].tolist() for x in Xs], "model": [a[:400] for a in ans]}, cls=cls)
 
+
+
+# --------------------------------------------------------------------------------------------- NumPy shapes of a(t, z)
+def probe_shape(ctx, desc):
+    """the offered coefficient objects called exactly as the two schemes call them - on the column state (m, 1) built by
+    MarkovChainSDE (np.array([x0]).T) and on the stacked state (2, m, 1) built by CouplingSDE (np.stack) - then multiplied with the
+    driver column (d, 1) / the stacked driver columns (2, d, 1); shapes, entries and NumPy exceptions against the shape model of
+    Model/Sde.lean (theorems constant_commutes_with_stacking, scale_commutes_with_stacking, diag_rejects_stacked_state, ...)"""
+    kind, m, d, stacked = desc["cls"], desc["m"], desc["d"], desc["stacked"]
+    x0, x1, u0, u1 = (np.array(desc[k], float) for k in ("x0", "x1", "u0", "u1"))
+    t = desc.get("t", 0.0)
+    probe = "c16.shape"
+    cls = dict(a=kind, m=m, d=d, stacked=bool(stacked))
+    if kind == "const":
+        a = Constant(m=m, d=d, constant=desc["c"])
+        M = [[desc["c"]] * d for _ in range(m)]
+        tag = "const"
+    elif kind == "diag":
+        a, M, tag = DiagX(m), [], "diag"
+    else:
+        F = LiborSDEFunction if kind == "libor" else ForwardMarketSDEFunction
+        a = F(sigma=np.array(desc["sigma"], float), tenors=np.array(desc["tenors"], float))
+        M = np.asarray(a.sigma(np.float64(t)), float).tolist()        # sigma(t) is an input of the model
+        tag = "scale"
+    if stacked:
+        zi = np.stack((np.array([x0]).T, np.array([x1]).T))                                   # couplingsde.py:91
+        v = np.stack((np.atleast_2d(u0.reshape(d, 1)), np.atleast_2d(u1.reshape(d, 1))))     # couplingsde.py:98-100
+    else:
+        zi = np.array([x0]).T                                                                 # markovchainsde.py:78
+        v = np.atleast_2d(u0).T                                                               # markovchainsde.py:97-99
+    def arr(f):
+        try:
+            r = np.asarray(f(), float)
+            return [list(r.shape), [float(q) for q in r.reshape(-1)]], r
+        except Exception as e:  # noqa
+            return "err", None
+    A, Araw = arr(lambda: a(np.float64(t), zi))
+    R, _ = arr(lambda: Araw @ v) if Araw is not None else ("err", None)
+    ctx.count(probe, desc, nontrivial=True, branch=f"{kind}:{'stacked' if stacked else 'column'}:{'raises' if 'err' in (A, R) else 'returns'}")
+    if kind == "libor":
+        # S: sigma(t) as documented - the row of a rate whose tenor T_k <= t has passed is zero (it has fixed), the others are sigma's
+        want = [[0.0] * d if desc["tenors"][k] <= t else [float(q) for q in desc["sigma"][k]] for k in range(m)]
+        if M != want:
+            ctx.fail("oracle", probe + ".libor_sigma", desc, {"what": "LiborSDEFunction.sigma(t): rows of fixed rates (tenor <= t) must be zero, the others unchanged",
+                                                               "t": t, "tenors": desc["tenors"], "impl": M, "expected": want}, cls=cls)
+        # C: the model computes sigma(t) itself (liborSigma)
+        ans = ctx.lean(f"shapel {m} {d} {1 if stacked else 0} {wll(desc['sigma'])} {wl(desc['tenors'])} {w(t)} {wl(x0)} {wl(x1)} {wl(u0)} {wl(u1)}").split(" ")
+    else:
+        ans = ctx.lean(f"shape {tag} {m} {d} {1 if stacked else 0} {wll(M)} {wl(x0)} {wl(x1)} {wl(u0)} {wl(u1)}").split(" ")
+
+    def same(py, sh, en):
+        if py == "err":
+            return sh == "err"
+        return sh != "err" and [int(q) for q in rdl(sh)] == py[0] and rdl(en) == [fr(q) for q in py[1]]
+    if len(ans) != 4 or not same(A, ans[0], ans[1]) or not same(R, ans[2], ans[3]):
+        ctx.fail("corr", probe + ".model", desc, {"name": "Drivers/C16 shape (NumPy-shape model of a(t, z) and a(t, z) @ v) vs the coefficient object",
+                                                  "impl_a": A if A == "err" else A[0], "impl_av": R if R == "err" else R[0], "model": [q[:200] for q in ans]}, cls=cls)
+        return
+    # S: what 'commutes with stacking' means on the implementation itself: the stacked evaluation is the stack of the column evaluations
+    if stacked and kind != "diag":
+        singles = [np.asarray(a(np.float64(t), np.array([x]).T), float) @ np.atleast_2d(u).T for x, u in ((x0, u0), (x1, u1))]
+        if R == "err" or not np.array_equal(np.asarray(R[1]).reshape(2, m, 1), np.stack(singles)):
+            ctx.fail("oracle", probe + ".commutes", desc, {"what": "a(t, stack(x0, x1)) @ stack(u0, u1) != stack(a(t, x0) @ u0, a(t, x1) @ u1)",
+                                                           "stacked": R, "columns": [q.tolist() for q in singles]}, cls=cls)
+
+
+def gen_shape(rng):
+    kind = rng.choice(["const", "diag", "libor", "forward"])
+    m = rng.choice([1, 2, 3, 4])
+    d = m if kind == "diag" else rng.choice([1, 2, 3])
+    vec = lambda k: [dy(rng, 3, -2, 2) for _ in range(k)]
+    desc = dict(cls=kind, m=m, d=d, stacked=rng.random() < 0.6, x0=vec(m), x1=vec(m), u0=vec(d), u1=vec(d))
+    if kind == "const":
+        desc["c"] = dy(rng, 3, -2, 2)
+    if kind in ("libor", "forward"):
+        first = rng.choice([0.5, 1.0, 2.0])
+        desc["tenors"] = [first + 0.5 * k for k in range(m + 1)]
+        desc["sigma"] = [[dy(rng, 2, -2, 2) for _ in range(d)] for _ in range(m)]
+        # Libor: also times at / after tenors (rows of fixed rates are zeroed); Forward: before the first tenor (it raises after, recorded)
+        desc["t"] = rng.choice([0.0, 0.25, first, first + 0.25, first + 0.5, first + 5.0]) if kind == "libor" else rng.choice([0.0, 0.25, first - 0.125])
+    return desc
 
 # --------------------------------------------------------------------------------------------- discount curve
 def probe_df(ctx, desc):
@@ -507,6 +609,19 @@ def probe_df(ctx, desc):
                 break
     if bad:
         ctx.fail("oracle", probe + ".sane", desc, bad, cls=cls)
+    # at the p-th tenor df is 1 / ((1 + x_0 T_0) prod_{k<p} (1 + x_k (T_{k+1} - T_k))): every accrual period with its own length
+    # (theorem df_at_tenor_is_product); recomputed here in exact arithmetic from the curve
+    if all(a < b for a, b in zip(tenors, tenors[1:])):
+        from fractions import Fraction
+        acc = 1 + Fraction(rates[0]) * Fraction(tenors[0]) if rates else Fraction(1)
+        for p_, T in enumerate(tenors):
+            if p_ > 0:
+                acc *= 1 + Fraction(rates[p_ - 1]) * (Fraction(tenors[p_]) - Fraction(tenors[p_ - 1]))
+            got = vals[mesh.index(T)]
+            if abs(Fraction(got) * acc - 1) > Fraction(1, 10 ** 13):
+                ctx.fail("oracle", probe + ".tenor_product", desc, {"what": "df at a tenor is not the product of the simple compounding factors of the initial curve",
+                                                                   "tenor_index": p_, "tenor": T, "df": got, "expected": float(1 / acc)}, cls=cls)
+                break
     # ---- C: against M
     ans = ctx.lean(f"df {wl(rates)} {wl(tenors)} {wl(mesh)}")
     toks = ans.strip()[1:-1].split(",") if ans.startswith("[") else []
@@ -564,7 +679,7 @@ def gen_coef(rng, d, coupled, kinds=None):
         return dict(kind=kind, m=m, d=d, C=C, D=D, e=e, beta=be, gamma=ga, x0=[dy(rng, 4, -2, 2) for _ in range(m)], maturity=maturity)
     m = rng.choice([2, 3, 5])
     inside = rng.random() < (0.5 if kind == "libor" else 0.04)     # forward + tenor inside the horizon is known to raise
-    first = maturity * rng.choice([0.25, 0.5]) if inside else maturity + rng.choice([0.5, 4.0])
+    first = maturity * rng.choice([0.25, 0.5]) if inside else maturity + rng.choice([0.0, 0.5, 4.0])     # 0.0: first tenor exactly at the maturity
     tenors = [first + 0.5 * k * (maturity if inside else 1.0) for k in range(m + 1)]
     sigma = [[rng.choice([0.5, 0.75, 1.0, 1.25, 1.5]) for _ in range(d)] for _ in range(m)]
     return dict(kind=kind, m=m, d=d, x0=[rng.choice([0.01, 0.02, 0.03, 0.05]) for _ in range(m)], tenors=tenors, sigma=sigma, maturity=maturity)
@@ -587,13 +702,13 @@ def gen_scripted(rng, d, maturity, coupled):
 
 
 def gen_case(rng, coupled, scripted, kinds=None):
-    dim = rng.choice([1, 1, 1, 2])
+    dim = rng.choice([1, 1, 1, 2, 2, 3]) if coupled else rng.choice([1, 1, 1, 2])
     dd = gen_driver(rng, dim)
     cd = gen_coef(rng, dim, coupled, kinds)
     desc = dict(driver=dd, coef=cd, grid=dict(h=rng.choice([0.2, 0.1, 0.05]), nb=rng.choice([5, 7, 9]) if dim == 1 else 5),
                 method=rng.choice(list(METHODS)) if dim == 1 else "INVERSION", np_seed=rng.randrange(2 ** 31))
     if coupled:
-        desc["level"] = rng.choice([1, 2, 2, 3]) if dim == 1 else rng.choice([1, 2])
+        desc["level"] = rng.choice([1, 2, 2, 3]) if dim <= 2 else 1
     if scripted:
         desc["scripted"] = gen_scripted(rng, dim, cd["maturity"], coupled)
     if rng.random() < 0.3:
@@ -609,6 +724,13 @@ def gen_df(rng):
     for _ in range(n):
         tenors.append(tenors[-1] + rng.choice([0.25, 0.5, 1.0, dy(rng, 6, 0.1, 2)]))
     rates = [rng.choice([0.0, 0.01, 0.02, 0.05, 0.1, dy(rng, 10, 0, 0.2), rng.uniform(0, 0.15)]) for _ in range(n)]
+    if rng.random() < 0.15:          # all rates zero: df is the constant 1
+        rates = [0.0] * n
+    if rng.random() < 0.15:          # strongly unequal accrual periods (1/64 .. 8 years), zero rates in between
+        tenors = [first]
+        for _ in range(n):
+            tenors.append(tenors[-1] + rng.choice([1 / 64, 1 / 8, 0.75, 3.0, 8.0]))
+        rates = [rng.choice([0.0, 0.0, 0.03, 0.25]) for _ in range(n)]
     return dict(model=kind, rates=rates, tenors=tenors, mesh=rng.choice([16, 32, 48]))
 
 
@@ -629,6 +751,20 @@ def run(ctx):
         for level in (1, 2, 3):
             probe_coupled(ctx, dict(base, np_seed=level, driver=dict(dim=1, fams=[fam], params=[params]), level=level,
                                     coef=dict(kind="const", m=1, d=1, c=0.75, x0=[1.5], maturity=1.0)))
+    # m >= 2 states driven by d = 2 copula drivers through coupled levels 1..3 (real coupled driver paths): constant matrix, diag(x) through
+    # the stacked-state-aware harness class, sigma * x of the forward model (m = 3)
+    cdrv = dict(dim=2, fams=["hem", "merton"], params=[{}, {}], copula="clayton")
+    for level in (1, 2, 3):
+        for cd in (dict(kind="const", m=2, d=2, c=0.75, x0=[1.5, -0.5], maturity=1.0),
+                   dict(kind="affine", m=2, d=2, C=[[0.0, 0.0], [0.0, 0.0]], D=[[1.0, 0.0], [0.0, 1.0]], e=0.0, beta=0.0, gamma=0.0, x0=[1.5, 0.5], maturity=1.0),
+                   dict(kind="forward", m=3, d=2, x0=[0.01, 0.02, 0.03], tenors=[1.0, 2.0, 2.5, 3.0], sigma=[[0.5, 1.0], [0.75, 0.5], [1.0, 1.25]], maturity=1.0)):
+            probe_coupled(ctx, dict(base, grid=dict(h=0.2, nb=5), np_seed=10 + level, driver=cdrv, level=level, coef=cd))
+    # the offered coefficient objects on the column / stacked state: witnesses of the recorded DiagX findings, then the random stream
+    probe_shape(ctx, dict(cls="diag", m=2, d=2, stacked=True, x0=[1.0, 2.0], x1=[3.0, 4.0], u0=[1.0, 1.0], u1=[2.0, 2.0]))
+    probe_shape(ctx, dict(cls="diag", m=2, d=2, stacked=False, x0=[1.0, 2.0], x1=[3.0, 4.0], u0=[1.0, 1.0], u1=[2.0, 2.0]))
+    probe_shape(ctx, dict(cls="diag", m=1, d=1, stacked=False, x0=[5.0], x1=[3.0], u0=[2.0], u1=[2.0]))
+    for _ in range(ctx.n(300, 3000)):
+        probe_shape(ctx, gen_shape(rng))
     single_kinds = ["const", "diag", "affine", "affine", "forward", "libor"]
     for i in range(ctx.n(250, 3000)):
         desc = gen_case(rng, coupled=False, scripted=(i % 3 == 2), kinds=single_kinds)
@@ -653,6 +789,8 @@ def replay(ctx, rec):
     p, d = rec["probe"], rec["input"]
     if p.startswith("c16.df"):
         probe_df(ctx, d)
+    elif p.startswith("c16.shape"):
+        probe_shape(ctx, d)
     elif "level" in d:
         probe_coupled(ctx, d)
     else:
